@@ -35,6 +35,57 @@ let () =
             let rest = String.sub t (i + 1) (n - i - 1) in
             if c = 'w' then OpWrite (k, bytes_of_hex rest) else OpBegin (k, z_of_int (int_of_string rest)) in
         print_endline (string_of_bytes (api_queue (z_of_int (int_of_string cap)) (List.map parse ops)))
+      | "mser" :: toks ->
+        (* prefix token grammar, see tools/gen_mser.py *)
+        let toks = ref toks in
+        let next () = match !toks with t :: r -> toks := r; t | [] -> failwith "eof" in
+        let big s = (* decimal string -> N *)
+          let n = ref N0 in
+          String.iter (fun c -> n := N.add (N.mul !n (n_of_int 10)) (n_of_int (Char.code c - 48))) s; !n in
+        let aty_of c = match c with
+          | 'y' -> ABool | 'c' -> AChar | 'b' -> AI8 | 's' -> AI16 | 'i' -> AI32 | 'l' -> AI64
+          | 'B' -> AU8 | 'S' -> AU16 | 'I' -> AU32 | 'L' -> AU64 | 'f' -> AF32 | 'd' -> AF64 | 'D' -> AF80 | _ -> failwith "aty" in
+        let hexs s = if s = "" then [] else bytes_of_hex s in
+        let rec pty () =
+          let t = next () in
+          let rest = String.sub t 1 (String.length t - 1) in
+          match t.[0] with
+          | 'A' -> TArith (aty_of rest.[0])
+          | 'E' -> (match String.split_on_char ':' rest with
+                    | [name; c; k] -> let k = int_of_string k in
+                      let es = List.init k (fun _ -> match String.split_on_char ':' (next ()) with [raw; nm] -> (big raw, hexs nm) | _ -> failwith "enumerator") in
+                      TEnum (hexs name, aty_of c.[0], es)
+                    | _ -> failwith "enum")
+          | 'Q' -> (match String.split_on_char ':' rest with
+                    | [c; ext] -> let k = { sk_contig = (c = "c"); sk_extent = (if ext = "-" then None else Some (nat_of_int (int_of_string ext))) } in
+                      let e = pty () in TSeq (k, e)
+                    | _ -> failwith "seq")
+          | 'T' -> let k = int_of_string rest in let ts = List.init k (fun _ -> 0) in TTuple (List.map (fun _ -> pty ()) ts)
+          | 'O' -> TOpt (pty ())
+          | 'V' -> let k = int_of_string rest in let ts = List.init k (fun _ -> 0) in TVariant (List.map (fun _ -> pty ()) ts)
+          | 'U' -> TUnit
+          | 'S' -> (match String.split_on_char ':' rest with
+                    | [name; k] -> let k = int_of_string k in let ix = List.init k (fun _ -> 0) in
+                      TStruct (hexs name, List.map (fun _ -> let l = next () in let lab = hexs (String.sub l 1 (String.length l - 1)) in let t = pty () in (lab, t)) ix)
+                    | _ -> failwith "struct")
+          | _ -> failwith ("ty " ^ t) in
+        let rec pval () =
+          let t = next () in
+          let rest = String.sub t 1 (String.length t - 1) in
+          match t.[0] with
+          | 'r' -> VRaw (big rest)
+          | 'q' -> let ix = List.init (int_of_string rest) (fun _ -> 0) in VSeq (List.map (fun _ -> pval ()) ix)
+          | 't' -> let ix = List.init (int_of_string rest) (fun _ -> 0) in VTup (List.map (fun _ -> pval ()) ix)
+          | 'n' -> VNone
+          | 's' -> VSome (pval ())
+          | 'a' -> let i = nat_of_int (int_of_string rest) in VAlt (i, pval ())
+          | 'x' -> VValueless
+          | 'u' -> VUnit
+          | _ -> failwith ("val " ^ t) in
+        let t = pty () in
+        (match next () with "|" -> () | _ -> failwith "sep");
+        let v = pval () in
+        print_endline (string_of_bytes (api_mser t v))
       | ("session" | "session_nofence") as m :: ops ->
         let n_of s = n_of_int (int_of_string s) in
         let hexs s = if s = "" then [] else bytes_of_hex s in
